@@ -3,6 +3,8 @@
   miri : the property's small Miri workload in 16 shard processes under `cargo +nightly miri run`
          (UB and data races in dependency unsafe code reached from the crates, and the threaded
          C20 variant)
+  asan : the property's quick workload (another seed) on an AddressSanitizer build of the harness
+         (the two crates and all their dependencies instrumented), 16 shards
   fuzz : libFuzzer + ASan target harness/fuzz (inspect_all), forked over the cores, corpus seeded
          from the grammar generator; an artefact counts only if it reproduces in the plain harness
 """
@@ -92,6 +94,89 @@ def _miri(prop, seed, HERE, HARNESS, ENV):
     return out
 
 
+ASAN_TARGET = "x86_64-unknown-linux-gnu"
+
+
+def _asan(prop, seed, HERE, HARNESS, ENV):
+    """The property's quick-tier workload (other seed) on a harness built with AddressSanitizer: the
+    repository's crates and every dependency (smallvec, byteorder, digest/sha1/sha2/md-5/hmac, crc,
+    tracing) are instrumented; std is the prebuilt one.  A report aborts the shard; the report text
+    and the input the shard was working on are the witness."""
+    out = {"summary": {}, "violations": [], "inconclusive": [], "evaluations": 0}
+    env = dict(ENV)
+    env["RUSTFLAGS"] = "-Zsanitizer=address -Cforce-frame-pointers=yes --cfg stunmon_asan"
+    env["CARGO_TARGET_DIR"] = os.path.join(HARNESS, "target", "asan")
+    t0 = time.time()
+    b = subprocess.run(["cargo", "+nightly", "build", "--release", "--offline", "--target", ASAN_TARGET], cwd=HARNESS, env=env,
+                       stdout=subprocess.PIPE, stderr=subprocess.STDOUT, text=True)
+    if b.returncode != 0:
+        out["inconclusive"].append("asan build failed: %s" % b.stdout[-600:].replace("\n", " "))
+        return out
+    binp = os.path.join(HARNESS, "target", "asan", ASAN_TARGET, "release", "stunmon")
+    sdir = os.path.join(HERE, "evidence", "shards", "asan-%s-%d" % (prop, os.getpid()))
+    shutil.rmtree(sdir, ignore_errors=True)
+    os.makedirs(sdir, exist_ok=True)
+    renv = dict(ENV)
+    renv["ASAN_OPTIONS"] = "halt_on_error=1:abort_on_error=0:exitcode=66:detect_leaks=0:detect_stack_use_after_return=1:strict_string_checks=1:symbolize=1"
+    renv["ASAN_SYMBOLIZER_PATH"] = shutil.which("llvm-symbolizer") or shutil.which("llvm-symbolizer-14") or ""
+    renv["VERIF_BUDGET"] = os.environ.get("VERIF_ASAN_BUDGET", "0.5")
+    procs = []
+    for i in range(NCPU):
+        o = os.path.join(sdir, "asan-%d.json" % i)
+        cmd = [binp, "run", prop, "--tier", "quick", "--seed", str(seed + 1000), "--shard", "%d/%d" % (i, NCPU), "--out", o]
+        procs.append((i, o, subprocess.Popen(cmd, cwd=HERE, env=renv, stdout=subprocess.PIPE, stderr=subprocess.PIPE)))
+    evals = done = reports = 0
+    for i, o, p in procs:
+        try:
+            so, se = p.communicate(timeout=3600)
+        except subprocess.TimeoutExpired:
+            p.kill()
+            so, se = p.communicate()
+            out["inconclusive"].append("asan shard %d timed out" % i)
+            continue
+        se = se.decode("utf-8", "replace")
+        if "ERROR: AddressSanitizer" in se:
+            reports += 1
+            lines = se[se.index("ERROR: AddressSanitizer"):].splitlines()
+            kind = (lines[0].split("AddressSanitizer:")[1].split()[0] if "AddressSanitizer:" in lines[0] else "report")
+            frames = [l.strip() for l in lines if l.strip().startswith("#")]
+            inrepo = next((f for f in frames if "stun-types" in f or "stun-proto" in f or "stun_types" in f or "stun_proto" in f), frames[0] if frames else "?")
+            fn = inrepo.split(" in ")[1].split(" ")[0] if " in " in inrepo else inrepo
+            wit = {"kind": "asan-shard", "property": prop, "seed": seed + 1000, "shard": "%d/%d" % (i, NCPU)}
+            cpath = o + ".crash"
+            if os.path.exists(cpath):
+                raw = open(cpath, "rb").read()
+                if len(raw) >= 2:
+                    ll = raw[1]
+                    wit = {"kind": "bytes", "entry": raw[2:2 + ll].decode("utf-8", "replace"), "buf": raw[2 + ll:].hex()}
+            out["violations"].append({
+                "property": prop, "signature": "%s|asan|%s|%s" % (prop, kind, fn), "assertion": "asan", "entry": fn, "feature": kind,
+                "expected": "no AddressSanitizer report", "observed": "\n".join(lines[:14])[:1800],
+                "build": "asan", "seed": seed + 1000, "tier": "thorough", "shard": i, "witness": wit})
+            continue
+        res = None
+        if os.path.exists(o):
+            try:
+                res = json.load(open(o))
+            except Exception:
+                res = None
+        if res is None:
+            out["inconclusive"].append("asan shard %d produced no result (rc %s): %s" % (i, p.returncode, se[-300:].replace("\n", " ")))
+            continue
+        done += 1
+        evals += res.get("evaluations", 0)
+        for v in res.get("violations", []):
+            v["build"] = "asan"
+            out["violations"].append(v)
+        if res.get("harness_fault"):
+            out["inconclusive"].append("asan harness fault: %s" % res["harness_fault"])
+    out["evaluations"] = evals
+    out["summary"] = {"shards_completed": done, "shards": NCPU, "cases_under_asan": evals, "asan_reports": reports,
+                      "options": renv["ASAN_OPTIONS"], "wall_s": round(time.time() - t0, 1)}
+    shutil.rmtree(sdir, ignore_errors=True)
+    return out
+
+
 def _fuzz(prop, seed, HERE, HARNESS, ENV):
     out = {"summary": {}, "violations": [], "inconclusive": [], "evaluations": 0}
     fdir = os.path.join(HARNESS, "fuzz")
@@ -159,4 +244,6 @@ def run_layer(name, prop, seed, HERE, HARNESS, ENV):
         return _miri(prop, seed, HERE, HARNESS, ENV)
     if name == "fuzz":
         return _fuzz(prop, seed, HERE, HARNESS, ENV)
+    if name == "asan":
+        return _asan(prop, seed, HERE, HARNESS, ENV)
     return {"summary": {"error": "unknown layer"}, "violations": [], "inconclusive": ["unknown layer %s" % name], "evaluations": 0}
